@@ -107,8 +107,16 @@ def replay_alphabet(ctx, words):
     real.parent.mkdir()
     real.write_text('x')
     pkg = pathlib.Path(cell_type_mapper.__file__).resolve().parent / 'utils' / 'cloud_utils.py'
-    refs = {'file': str(real), 'child': str(real.parent / 'not_there.h5'), 'package': str(pkg),
-            'nowhere': '/zz_no_such_dir_/qq/file.h5'}
+    deepdir = d
+    for i in range(9):
+        deepdir = deepdir / f'a_rather_long_directory_name_{i:02d}'
+    deepdir.mkdir(parents=True)
+    longfile = deepdir / 'data_file.h5'
+    longfile.write_text('x')
+    assert len(str(longfile)) > 255
+    refs = {'file': str(real), 'child': str(real.parent / 'not_there.h5'),
+            'deep': str(real.parent / 'missing_1' / 'missing_2' / 'not_there.h5'), 'long': str(longfile),
+            'package': str(pkg), 'nowhere': '/zz_no_such_dir_/qq/file.h5'}
     shapes = {'bare': ['{p}'], 'quoted': ["'{p}'", '"{p}"'], 'trailing': ['{p},', '{p}:', "'{p}',", '{p})'],
               'leading': ['({p}', '[{p}', '<{p}'], 'keyeq': ['key={p}', 'path={p}'],
               'repr': ["PosixPath('{p}')"], 'colon': ['name:{p}', 'file:{p}']}
@@ -142,7 +150,8 @@ def replay_alphabet(ctx, words):
     return n, bad
 
 
-LAYOUTS = ['plain', 'nested/deep/er', 'with.dots-and_dash', 'eq=sign', 'plus+comma,dir', 'br[ack]et', 'par(en)']
+LAYOUTS = ['plain', '/'.join(f'a_rather_long_directory_name_{i:02d}' for i in range(9)), 'with.dots-and_dash',
+           'eq=sign', 'nested/deep/er', 'plus+comma,dir', 'br[ack]et', 'par(en)']
 
 
 def run(ctx):
@@ -171,12 +180,12 @@ def run(ctx):
         ctx.sample({'alphabet': words[:6]})
     if ctx.only in (None, 'c2s'):
         layouts = LAYOUTS[:4] if quick else LAYOUTS
-        classes = ['ok', 'missing_query', 'corrupt_query', 'negative_raw', 'root_unusable',
+        classes = ['ok', 'missing_csv_dir', 'missing_query', 'corrupt_query', 'negative_raw', 'root_unusable',
                    'unknown_marker', 'other_taxonomy', 'fault_kill', 'fault_raise', 'ok_csc']
         jobs, meta = [], []
         for li, lay in enumerate(layouts):
             for ci, cls in enumerate(classes):
-                if quick and (li + ci) % 2 == 1 and cls not in ('ok', 'fault_raise'):
+                if quick and (li + ci) % 2 == 1 and cls not in ('ok', 'fault_raise', 'missing_csv_dir'):
                     continue
                 s = None
                 while s is None:
@@ -201,6 +210,8 @@ def run(ctx):
                     plan = str(pp)
                 elif cls == 'ok_csc':
                     s['cfg']['enc'] = 'csc'
+                elif cls == 'missing_csv_dir':
+                    pass      # handled in the runner: CSV path two missing levels below the output dir
                 jobs.append({'job': {'scn': s, 'scheme': 'structural', 'plan': plan, 'mode': 'cli', 'keep': True,
                                      'workdir': str(root), 'damage': cls}})
                 meta.append((cls, lay))
